@@ -35,10 +35,13 @@ _PAIR = re.compile("\ue000([0-9]+)\ue001(.*?)\ue002\\1\ue003", re.S)
 _SENT = re.compile("[\ue000\ue002][0-9]+[\ue001\ue003]")
 
 
+P_SET = set("".join(P_DRAW))
+
+
 def setup(tier):
     from vf.core import HarnessError
 
-    if set("".join(Q + Q_BAL)) & set(P):
+    if set("".join(Q + Q_BAL)) & P_SET:
         raise HarnessError("inserted alphabet Q must be disjoint from the plain alphabet P")
 
 
@@ -108,7 +111,7 @@ def evaluate(case):
         plain = case["plain"]
         ins = case["ins"]  # list of [position in plain 0..len, q-index]
         spans = [tuple(s) for s in case["spans"]]
-        if any(ch not in P and not (case.get("multiline") and ch == "\n") for ch in plain) or not plain:
+        if any(ch not in P_SET and not (case.get("multiline") and ch == "\n") for ch in plain) or not plain:
             return res
         if case.get("multiline"):
             res.label("multiline")
